@@ -542,7 +542,16 @@ func (r *runningStep) provideEnablingInput(input map[string]any) error {
 	}
 	// Check to make sure it's enabled.
 	// This is an optional field, so no input means enabled.
-	enabled := input["enabled"] == nil || input["enabled"] == true
+	// A literal in the workflow file arrives as the YAML scalar (the string "true"), so the value is read
+	// with the field's schema instead of being compared with the boolean.
+	enabled := true
+	if input["enabled"] != nil {
+		unserializedEnabled, err := schema.NewBoolSchema().Unserialize(input["enabled"])
+		if err != nil {
+			return fmt.Errorf("invalid value for 'enabled' of step %s (%w)", r.runID, err)
+		}
+		enabled = unserializedEnabled.(bool)
+	}
 	r.enabledInputAvailable = true
 	r.enabledInput <- enabled
 	return nil
